@@ -365,7 +365,7 @@ Definition nv_a64_bad (base : Z) : list mspec :=
     {| ms_tech := TkCfi; ms_fill := [7]; ms_ra := 1073742096 |};                           (* words 3..4 *)
     {| ms_tech := TkFp; ms_fill := [0]; ms_ra := 1073742112 |};                            (* words 5..6, saved fp at word 5 *)
     {| ms_tech := TkCfi; ms_fill := [7]; ms_ra := 1073742128 |} ].                         (* words 7..8 *)
-Example c04_fp_behind_cfi_known_witness :
+Theorem c04_fp_behind_cfi_known_witness :
   mix_wf_layout arm64 nv_iv nv_mods 70368744177664 1073741904 (70368744177664 + 8 * 1) (nv_a64_bad 70368744177664) = false /\
   mix_wf_layout x86 nv_iv nv_mods 2147483648 1073741904 (2147483648 + 4 * 1)
     (map (fun f => match ms_tech f, ms_fill f with TkFp, [x; _] => {| ms_tech := TkFp; ms_fill := [x; 2147483648 + 4 * 5]; ms_ra := ms_ra f |} | _, _ => f end)
@@ -380,3 +380,4 @@ Proof.
   split; [vm_compute; reflexivity|]. split; [vm_compute; reflexivity|].
   cbn [mix_layout]. eexists. split; [vm_compute; reflexivity|]. repeat split; reflexivity.
 Qed.
+Print Assumptions c04_fp_behind_cfi_known_witness.
